@@ -15,15 +15,16 @@
         counter, applied flags of every block and P (multiset) unchanged; result < 0 => the candidate is the tip and
         exactly root..candidate is applied;
       * after either call P is exactly bootstrap + effects of the applied blocks (C02_compare_canonical, C01).
-    GAP (why the two main theorems carry _partial; full statement of the property): additionally
-      - validity marks change only on the target / candidate branch (FAILED_POP on the first failing block, FAILED_CHILD
-        on its descendants, raised levels below it): proved for one applyBlock (C02_applyBlock_atomic), not lifted to
-        the walks;
-      - no assert of the modelled code (Abort outcome) is reachable from reachable states.
-      Both are covered by the direct oracle on the implementation (snapshot before/after every call, allowance of
-      DESIGN section 7, enumeration of the failing position) and by the step-by-step correspondence with the model. *)
+      * C02_setState_marks / C02_compare_marks ([md (branch s t) s s']): from every reachable state the call changes
+        nothing in the tree but validity marks, and those only on the target / candidate branch: levels are raised only
+        on ancestors-or-self of the target, FAILED_POP is set only there, FAILED_CHILD only on proper descendants of a
+        block of the branch that got FAILED_POP; nothing is cleared or lowered, FAILED_BLOCK is untouched.
+    GAP (why the two main theorems still carry _partial): no assert of the modelled code (Abort outcome) is reachable
+      from reachable states - proved for setState to a fully valid target (C20_reactivation), not yet for a failing
+      target and for comparePopScore. Covered by the direct oracle on the implementation (an assert aborts the harness
+      and is reported with the history) and by the step-by-step correspondence with the model. *)
 From Coq Require Import List ZArith NArith Bool Permutation.
-From VB Require Import Pop.SmDefs Pop.SmProofs Pop.SmWf Pop.SmCmp Pop.SmAll.
+From VB Require Import Pop.SmDefs Pop.SmProofs Pop.SmWf Pop.SmCmp Pop.SmAll Pop.SmMarks.
 Local Open Scope Z_scope.
 
 Theorem C02_group_exec_atomic :
@@ -96,3 +97,13 @@ Theorem C02_compare_canonical :
     canon base s -> c_compare score crossed s c = Ok (s', r) -> canon base s'.
 Proof. exact canon_compare. Qed.
 Print Assumptions C02_compare_canonical.
+
+Theorem C02_setState_marks :
+  forall base s to s' ok, reachable base s -> c_setState s to = Ok (s', ok) -> md (branch s to) s s'.
+Proof. exact setState_marks. Qed.
+Print Assumptions C02_setState_marks.
+
+Theorem C02_compare_marks :
+  forall base sc cr s c s' r, reachable base s -> c_compare sc cr s (Some c) = Ok (s', r) -> md (branch s c) s s'.
+Proof. exact compare_marks. Qed.
+Print Assumptions C02_compare_marks.
